@@ -93,7 +93,7 @@ def _json_safe_sample(value: Any) -> Any:
     """Return ``value`` if JSON serialisable, else its ``repr``."""
 
     try:
-        json.dumps(value)
+        json.dumps(value, sort_keys=True)
         return value
     except (TypeError, ValueError):
         return repr(value)
